@@ -1,6 +1,7 @@
 #!/bin/bash
 # tools/run-benign.sh <name> [tier]  — evaluates one property-preserving change (/verif/benign/<name>/{patch.diff,meta.json}, e.g. C07-1,
 # written by an independent agent that saw only the property text): applied to a scratch worktree of /repo HEAD, the property's
+# (a file <name>/base names the /repo revision the patch applies to when a later fix: commit touched the same lines)
 # check must stay silent (exit 0, no VIOLATION line). Writes /verif/benign/<name>/result_<tier>.json.
 set -u
 NAME="$1"; TIER="${2:-quick}"
@@ -10,7 +11,8 @@ S="$HERE/benign/$NAME"
 PROP=$(jq -r .property "$S/meta.json" | grep -o 'C[0-9][0-9]' | head -1)
 [ -z "$PROP" ] && PROP="${NAME%%-*}"
 WT="/var/tmp/benignwt-$NAME-$$"
-git -C /repo worktree add --detach "$WT" HEAD >/dev/null 2>&1 || { echo "cannot create worktree"; exit 2; }
+BASE="${BASE:-$(cat "$S/base" 2>/dev/null || echo HEAD)}"
+git -C /repo worktree add --detach "$WT" "$BASE" >/dev/null 2>&1 || { echo "cannot create worktree"; exit 2; }
 trap 'git -C /repo worktree remove --force "$WT" >/dev/null 2>&1; rm -rf "$WT"' EXIT
 if ! git -C "$WT" apply "$S/patch.diff" 2> "$S/apply.log"; then echo "$NAME: patch does not apply: $(head -2 "$S/apply.log")"; exit 2; fi
 rm -f "$S/apply.log"
@@ -22,6 +24,6 @@ sig=$(echo "$out" | grep -A1 '^VIOLATION' | grep signature | head -3 | sed 's/^ 
 nviol=$(echo "$out" | grep -c '^VIOLATION')
 cp "$SAVE/$PROP.json" "$HERE/evidence/" 2>/dev/null; rm -rf "$SAVE" "$HERE/replay/$PROP"
 silent=false; [ $rc -eq 0 ] && [ "$nviol" -eq 0 ] && silent=true
-jq -n --arg n "$NAME" --arg p "$PROP" --arg tier "$TIER" --argjson rc $rc --argjson silent $silent --arg sig "$sig" --argjson nv "$nviol" --arg head "$(git -C /repo rev-parse --short HEAD)" \
+jq -n --arg n "$NAME" --arg p "$PROP" --arg tier "$TIER" --argjson rc $rc --argjson silent $silent --arg sig "$sig" --argjson nv "$nviol" --arg head "$(git -C /repo rev-parse --short "$BASE")" \
   '{name:$n, property:$p, repo_head:$head, check_tier:$tier, check_exit:$rc, violation_lines:$nv, silent:$silent, first_signatures:$sig}' > "$S/result_${TIER}.json"
 printf '%-7s %-4s check=%s viol=%s %s\n' "$NAME" "$PROP" $rc $nviol "$(echo "$sig" | head -1 | cut -c1-150)"
